@@ -29,4 +29,69 @@ theorem trunc_trunc_ge (a b n : Nat) (h : a ≤ b) : trunc a (trunc b n) = trunc
   unfold trunc
   exact Nat.mod_mod_of_dvd n (Nat.pow_dvd_pow 2 h)
 
+/-- Chunk `i` of a `Cat` of equally wide chunks. -/
+theorem slice_cat_uniform (bw : Nat) (l : List Nat) :
+    ∀ i, slice (i * bw) bw (cat (l.map fun v => (bw, v))) = (l.getD i 0) % 2 ^ bw := by
+  induction l with
+  | nil => intro i; simp [cat, slice]
+  | cons v rest ih =>
+    intro i
+    cases i with
+    | zero =>
+      simp only [List.map_cons, cat, slice, Nat.zero_mul, Nat.pow_zero, Nat.div_one, List.getD_cons_zero]
+      rw [Nat.add_mul_mod_self_left, Nat.mod_mod]
+    | succ i =>
+      simp only [List.map_cons, cat, List.getD_cons_succ]
+      rw [← ih i]
+      unfold slice
+      have hpos : 0 < 2 ^ bw := Nat.two_pow_pos bw
+      rw [show (i + 1) * bw = bw + i * bw by rw [Nat.add_mul]; omega, Nat.pow_add, ← Nat.div_div_eq_div_mul,
+        Nat.add_mul_div_left _ _ hpos, Nat.div_eq_of_lt (Nat.mod_lt _ hpos), Nat.zero_add]
+
+/-- **Sub-word staging order** (memory word = `cpm` bus words, any ratio): when the last sub-word of a memory word
+    is written, the memory word becomes `Cat(dat_w, wregs[cpm-2], …, wregs[0])`, i.e. reading sub-word `k`
+    (`slice ((cpm-1-k)*bw)`, see `sram_next_read`) returns what was staged by the write to sub-word `k`, and reading
+    the last sub-word returns `dat_w`. -/
+theorem sram_staging_order (c : SramCfg) (s : SramState) (i : SramIn)
+    (hw : c.width = c.cpm * c.bw) (hcpm : 0 < c.cpm) (hlen : s.wregs.length = c.cpm - 1)
+    (hro : c.readOnly = false) (hsel : c.sel i.bus.adr = true) (hwe : i.bus.we = true)
+    (hsub : i.bus.adr % 2 ^ c.wb = c.cpm - 1)
+    (hin : c.clampAdr (c.portAdr i.bus.adr i.page) < s.mem.length) :
+    let word := ((sram c).next s i).mem.getD (c.clampAdr (c.portAdr i.bus.adr i.page)) 0
+    slice 0 c.bw word = i.bus.datW % 2 ^ c.bw ∧
+    ∀ k, k < c.cpm - 1 → slice ((c.cpm - 1 - k) * c.bw) c.bw word = (s.wregs.getD k 0) % 2 ^ c.bw := by
+  intro word
+  have hword : word = trunc c.width (cat ((i.bus.datW :: s.wregs.reverse).map fun v => (c.bw, v))) := by
+    simp only [word, sram_next_mem, hsel, hwe, hro, hsub, Bool.not_false, Bool.and_self, beq_self_eq_true, if_true]
+    rw [List.getD_eq_getElem?_getD, List.getElem?_set_self hin, Option.getD_some]
+    simp [List.map_cons]
+  -- the Cat is exactly `width` bits wide, truncation changes nothing
+  have hlt : cat ((i.bus.datW :: s.wregs.reverse).map fun v => (c.bw, v)) < 2 ^ c.width := by
+    have key : ∀ l : List Nat, cat (l.map fun v => (c.bw, v)) < 2 ^ (l.length * c.bw) := by
+      intro l
+      induction l with
+      | nil => simp [cat]
+      | cons v rest ih =>
+        simp only [List.map_cons, cat, List.length_cons]
+        rw [Nat.add_mul, Nat.one_mul, Nat.add_comm (rest.length * c.bw), Nat.pow_add]
+        have h1 : v % 2 ^ c.bw < 2 ^ c.bw := Nat.mod_lt _ (Nat.two_pow_pos _)
+        calc v % 2 ^ c.bw + 2 ^ c.bw * cat (rest.map fun v => (c.bw, v))
+            < 2 ^ c.bw + 2 ^ c.bw * cat (rest.map fun v => (c.bw, v)) := by omega
+          _ = 2 ^ c.bw * (cat (rest.map fun v => (c.bw, v)) + 1) := by rw [Nat.mul_add, Nat.mul_one, Nat.add_comm]
+          _ ≤ 2 ^ c.bw * 2 ^ (rest.length * c.bw) := Nat.mul_le_mul_left _ ih
+    have := key (i.bus.datW :: s.wregs.reverse)
+    rw [hw]
+    simpa [hlen, Nat.sub_add_cancel hcpm] using this
+  rw [hword, trunc_of_lt hlt]
+  constructor
+  · have := slice_cat_uniform c.bw (i.bus.datW :: s.wregs.reverse) 0
+    simpa using this
+  · intro k hk
+    rw [slice_cat_uniform c.bw (i.bus.datW :: s.wregs.reverse) (c.cpm - 1 - k)]
+    have hidx : c.cpm - 1 - k = (c.cpm - 2 - k) + 1 := by omega
+    rw [hidx, List.getD_cons_succ, List.getD_eq_getElem?_getD, List.getD_eq_getElem?_getD]
+    rw [List.getElem?_reverse (by omega)]
+    congr 3
+    omega
+
 end Litex.Csr
